@@ -617,6 +617,15 @@ for d in sys.argv[1:]:
         print("err", d, repr(e))
 `
 
+// pythonBin prefers the system interpreter: a pyenv shim in PATH costs tens of
+// seconds per start on a loaded machine.
+func pythonBin() string {
+	if st, err := os.Stat("/usr/bin/python3"); err == nil && !st.IsDir() {
+		return "/usr/bin/python3"
+	}
+	return "python3"
+}
+
 func (c *caseCtx) pyQueue(j int, m mutant, wal, S []byte) {
 	d := filepath.Join(c.dir, fmt.Sprintf("py%d", j))
 	if os.MkdirAll(d, 0o755) != nil {
@@ -639,7 +648,7 @@ func (c *caseCtx) pyCross() {
 	ctx, cancel := context.WithTimeout(context.Background(), 4*time.Minute)
 	defer cancel()
 	t0 := time.Now()
-	out, err := exec.CommandContext(ctx, "python3", args...).CombinedOutput()
+	out, err := exec.CommandContext(ctx, pythonBin(), args...).CombinedOutput()
 	if err != nil || !bytes.Contains(out, []byte("version ")) {
 		c.res.Count("c_sqlite_cross_check_skipped", len(c.py))
 		c.res.Count(fmt.Sprintf("c_sqlite_cross_check_skipped_reason:%.40v/after=%ds", err, int(time.Since(t0).Seconds())), 1)
@@ -695,7 +704,7 @@ func finish(run *vf.Run, results []*vf.Result, ev map[string]any) []vf.Violation
 	ev["distinct_nontrivial"] = len(triples)
 	ev["distinct_nontrivial_unit"] = "(base, mutation class, outcome class) over non-trivial inputs"
 	ev["mutation_classes_with_nontrivial_inputs"] = len(classes)
-	if out, err := exec.Command("python3", "-c", "import sqlite3; print(sqlite3.sqlite_version)").Output(); err == nil {
+	if out, err := exec.Command(pythonBin(), "-c", "import sqlite3; print(sqlite3.sqlite_version)").Output(); err == nil {
 		ev["c_sqlite_version"] = strings.TrimSpace(string(out))
 	} else {
 		ev["c_sqlite_version"] = "unavailable (cross-check skipped)"
